@@ -622,6 +622,14 @@ func c14Family_(c *Ctx, ct *Cont, fd *ast.FuncDecl, m *types.Func, fam string, l
 			r2("guard").Fail("predicate: %s", why)
 			return
 		}
+		if !untyped {
+			// short-circuit order: the kind test must be evaluated before the predicate is invoked
+			first := act.Guard[0]
+			if id, isId := first.Expr.(*ast.Ident); !isId || first.Neg || c.obj(id) != oks[0] {
+				r2("guard").Fail("the predicate is invoked before the kind test has succeeded: it is called for elements of other kinds (with a zero value) as well")
+				return
+			}
+		}
 	} else if len(others) != 0 {
 		r2("guard").Fail("action has an extra guard condition %s: not every element of the kind is processed", exprStr(others[0].Expr))
 		return
